@@ -79,6 +79,35 @@ class BudgetExceeded(Exception):
     """Deterministic progress-measure overrun (DESIGN.md 2.4); raised by the interposers."""
 
 
+class Journal:
+    """The case a worker is about to execute, for the driver's watchdog (compiled code cannot be interrupted from inside)."""
+
+    def __init__(self):
+        path = os.environ.get("VERIF_JOURNAL")
+        self.fd = os.open(path, os.O_WRONLY | os.O_CREAT | os.O_TRUNC, 0o600) if path else None
+
+    def begin(self, case):
+        if self.fd is not None:
+            data = json.dumps({"t": time.time(), "case": case}).encode()
+            os.pwrite(self.fd, data, 0)
+            os.ftruncate(self.fd, len(data))
+
+    def end(self):
+        if self.fd is not None:
+            os.pwrite(self.fd, b"{}", 0)
+            os.ftruncate(self.fd, 2)
+
+
+_JOURNAL = None
+
+
+def journal():
+    global _JOURNAL
+    if _JOURNAL is None:
+        _JOURNAL = Journal()
+    return _JOURNAL
+
+
 def case_hash(case):
     return hashlib.sha1(json.dumps(case, sort_keys=True, separators=(",", ":")).encode()).hexdigest()[:12]
 
@@ -147,20 +176,15 @@ def drive(strategy, check, rec, seed, max_examples, shrink=True, max_failures=1,
     the shrunk case and message are appended to rec.failures.  Returns when done.
     """
     state = {"deadline": None}
-    journal = os.environ.get("VERIF_JOURNAL")
+    jr = journal()
 
     @hypothesis.seed(seed)
     @hyp_settings(max_examples, shrink)
     @given(strategy)
     def test(case):
-        if journal:
-            # the driver's watchdog reads this when the worker stops answering (compiled code cannot be interrupted)
-            with open(journal, "w") as jf:
-                json.dump({"t": time.time(), "case": case}, jf)
+        jr.begin(case)
         v = check(case)
-        if journal:
-            with open(journal, "w") as jf:
-                jf.write("{}")
+        jr.end()
         if not state.get("shrinking"):
             rec.record(case, v)
         if not v.ok:
